@@ -30,8 +30,15 @@
                       the owner, suspended in Body / SetDone / AwaitChildren, receives its own _cancel_self,
                       its own until-interrupt, or a foreign exception (cancel by an outer scope,
                       GeneratorExit of a close): every one of them ends in _close_scope
-     AwaitStep        the owner resumes in `await _body_done.set()` / `_await_children`:
-                      `while self._children` can only be left when the NON-VOLATILE list is empty
+     AwaitStep        the owner resumes in `await _body_done.set()` / `_await_children` and evaluates
+                      `while self._children`: it can only be left when the NON-VOLATILE list is empty
+     AwaitWait        the owner resumes inside `for child in self._children[:]: await child.done` and suspends again
+                      on the next task of the COPY: a task of the copy that is done already costs one postponement
+                      (Condition.__await__), whatever `_children` has become meanwhile - even empty.  The scope stays
+                      open (do() is accepted) until the copy is through and `while self._children` is evaluated
+                      (AwaitStep).  Found by the replay correspondence (harness/scopecorr.py): two children end in
+                      one time step, the owner is postponed on the second one with an empty list, a volatile child
+                      spawns into the scope just then - accepted and waited for.
      CloseChild i d   one iteration of _close_children / _close_volatile (Task.__close__): Created -> result
                       := reason, done set (stays listed until ChildReap); Running -> runner.close() unwinds
                       synchronously (d = the unwinding code raised something else: failed=True).
@@ -139,7 +146,7 @@ Inductive label :=
   | ChildReturn (i : nat) | ChildFail (i : nat) | ChildCancel (i : nat)
   | Fire | BodyStep | BodyReturn | BodyRaise
   | DeliverCancelSelf | DeliverInterrupt | DeliverForeign
-  | AwaitStep | CloseChild (i : nat) (dirty : bool) | FinishClose | Tick.
+  | AwaitStep | AwaitWait | CloseChild (i : nat) (dirty : bool) | FinishClose | Tick.
 
 Definition running_only (c : child) (r : child) : option child :=
   match st c with Running => Some r | _ => None end.
@@ -193,6 +200,7 @@ Definition step (s : state) (l : label) : option state :=
           Some (if existsb pending_nv (kids s) then set_ph AwaitChildren s else enter_closing CGraceful s)
       | _ => None
       end
+  | AwaitWait => match ph s with AwaitChildren => Some s | _ => None end
   | CloseChild i d =>
       match ph s with
       | Closing _ =>
